@@ -40,11 +40,15 @@ class ExecBase:
         self.feas_timeout = 2000
         self.npaths = 0
         self.cur_cls = None        # class of the function body being executed (for super())
+        self.spec_inst_depth = 0
+        self.discovered_init = set()
 
     # ------------------------------------------------------------------ utilities
     def oblige(self, kind, st, goal, desc, name=None):
         if self.discovery:
             return
+        if kind == "safe" and self.spec_mode:
+            return   # partial operations inside specifications are unspecified, not obligations
         oid = f"{self.fn_label}:{name or kind}"
         self.obligations.append(Obligation(oid, kind, st.pc, goal, desc, st.path))
 
